@@ -159,14 +159,14 @@ Lemma result_lists_all_names opt bd s :
   map fst (r_params (snd (fit M_bfgs opt bd s))) = allnames s /\
   map fst (r_params (snd (fit M_lbfgsb opt bd s))) = allnames s /\
   map fst (r_params (snd (fit M_newton opt bd s))) = allnames s /\
-  map fst (r_params (snd (fit M_minuit opt bd s))) = train s.
+  map fst (r_params (snd (fit M_minuit opt bd s))) = allnames s.
 Proof.
   assert (E : forall (f : name -> R) l, map fst (map (fun n => (n, f n)) l) = l).
   { intros f l. rewrite map_map. cbn. apply map_id. }
   pose proof (fit_shape M_bfgs opt bd s) as (_ & A1 & _).
   pose proof (fit_shape M_lbfgsb opt bd s) as (_ & A2 & _).
   pose proof (fit_shape M_newton opt bd s) as (_ & A3 & _).
-  pose proof (fit_shape M_minuit opt bd s) as (_ & _ & A4 & _).
+  pose proof (fit_shape M_minuit opt bd s) as (_ & A4 & _).
   cbn [fit fit_bfgs fit_lbfgsb fit_newton fit_minuit fst snd r_params] in *. unfold get_params, get_params_train.
   rewrite !E. repeat split; assumption.
 Qed.
@@ -424,4 +424,160 @@ Proof.
   assert (A : - (2 * 2 + 1) * PI <= wrap1 x < (2 * 2 + 1) * PI) by (apply wrap1_step; [lra|]; lra).
   assert (B : - (2 * 1 + 1) * PI <= wrap1 (wrap1 x) < (2 * 1 + 1) * PI) by (apply wrap1_step; [lra|]; lra).
   pose proof (wrap1_step (wrap1 (wrap1 x)) 0 ltac:(lra)) as C. lra.
+Qed.
+
+(* ---------- the result written to a file and loaded into a fresh model (every branch, iminuit included) ---------- *)
+Lemma result_is_save m opt bd s : r_params (snd (fit m opt bd s)) = save (fst (fit m opt bd s)).
+Proof. destruct m; reflexivity. Qed.
+
+Lemma result_save_load m opt bd (s t : st) neg n :
+  cellof t = cellof s -> allnames t = allnames s -> In n (allnames s) ->
+  (forall k, mem k neg = true -> read t k = read (fst (fit m opt bd s)) k) ->
+  read (load (r_params (snd (fit m opt bd s))) neg t) n = read (fst (fit m opt bd s)) n.
+Proof.
+  intros Hc Ha Hin Hneg. rewrite result_is_save. destruct (fit_shape m opt bd s) as (A & B & _).
+  apply save_load_identity; [congruence | congruence | rewrite B; exact Hin | exact Hneg].
+Qed.
+
+(* the iminuit branch before the repair: the result omitted the fixed names, and a fresh model whose fixed value differs
+   (the default fixed chain total is drawn at random by every model build) is NOT brought to the fitted point by the file *)
+Definition ex_m_s : st := mkSt (fun n => n) (fun _ => 1) [0%nat; 1%nat] [1%nat] [] [].
+Definition ex_m_t : st := mkSt (fun n => n) (fun _ => 0) [0%nat; 1%nat] [1%nat] [] [].
+Lemma minuit_old_save_load_refuted :
+  cellof ex_m_t = cellof ex_m_s /\ allnames ex_m_t = allnames ex_m_s /\ In 0%nat (allnames ex_m_s) /\
+  ~ In 0%nat (map fst (r_params (snd (fit_minuit_old (fun _ => ([1], 0)) [] ex_m_s)))) /\
+  read (load (r_params (snd (fit_minuit_old (fun _ => ([1], 0)) [] ex_m_s))) [] ex_m_t) 0%nat
+    <> read (fst (fit_minuit_old (fun _ => ([1], 0)) [] ex_m_s)) 0%nat.
+Proof.
+  repeat split; [left; reflexivity | cbn; intros [H|[]]; discriminate |].
+  unfold read; cbn. lra.
+Qed.
+
+(* ---------- the early return of the library's own guard (LargeNumberError) ---------- *)
+Lemma fit_except_is_newton : fit_except = fit M_newton.
+Proof. reflexivity. Qed.
+
+Lemma except_bnd_empty opt bd s : bnd (fst (fit_except opt bd s)) = [].
+Proof. reflexivity. Qed.
+
+Lemma except_old_leaks_bounds opt bd s : bd <> [] -> bnd (fst (fit_except_old opt bd s)) <> [].
+Proof.
+  intros H. cbn [fit_except_old fst]. unfold set_trans_var.
+  destruct (set_all_shape (train (set_bound s bd)) (set_bound s bd)
+              (trans_vals (bnd (set_bound s bd)) (train (set_bound s bd)) (fst (opt (set_bound s bd))))) as [_ E].
+  rewrite E. cbn [set_bound bnd]. destruct bd; [congruence | discriminate].
+Qed.
+
+(* ---------- bounds declared on any member of a tie ---------- *)
+Definition refines (b' b : bound) : Prop := forall y, in_bound b' y -> in_bound b y.
+
+Lemma refines_refl b : refines b b.
+Proof. intros y H; exact H. Qed.
+Lemma refines_trans a b c : refines a b -> refines b c -> refines a c.
+Proof. intros H1 H2 y H. apply H2, H1, H. Qed.
+
+Lemma isect_refines l u l0 u0 :
+  refines (lo_isect l l0, hi_isect u u0) (l, u) /\ refines (lo_isect l l0, hi_isect u u0) (l0, u0).
+Proof.
+  split; intros y; destruct l as [a|], l0 as [a0|], u as [b|], u0 as [b0|]; cbn [lo_isect hi_isect in_bound];
+    repeat match goal with |- context [Rlt_dec ?p ?q] => destruct (Rlt_dec p q) end; intros; lra.
+Qed.
+
+Lemma norm_step_acc s acc nb h bh :
+  lookup acc h = Some bh -> exists b', lookup (norm_step s acc nb) h = Some b' /\ refines b' bh.
+Proof.
+  intros H. unfold norm_step. cbn [lookup]. destruct (Nat.eqb (head_of s (fst nb)) h) eqn:E.
+  - apply Nat.eqb_eq in E. rewrite E, H. eexists; split; [reflexivity|].
+    destruct bh as [l0 u0]. cbn [fst snd]. apply isect_refines.
+  - exists bh. split; [exact H | apply refines_refl].
+Qed.
+
+Lemma norm_step_new s acc k b :
+  exists b', lookup (norm_step s acc (k, b)) (head_of s k) = Some b' /\ refines b' b.
+Proof.
+  unfold norm_step. cbn [lookup fst snd]. rewrite Nat.eqb_refl. eexists; split; [reflexivity|].
+  destruct b as [l u]. cbn [fst snd]. apply isect_refines.
+Qed.
+
+Lemma norm_fold_acc s bd : forall acc h bh,
+  lookup acc h = Some bh -> exists b', lookup (fold_left (norm_step s) bd acc) h = Some b' /\ refines b' bh.
+Proof.
+  induction bd as [|nb bd IH]; intros acc h bh H; [exists bh; split; [exact H | apply refines_refl]|].
+  cbn [fold_left]. destruct (norm_step_acc s acc nb h bh H) as (b1 & H1 & R1).
+  destruct (IH _ h b1 H1) as (b2 & H2 & R2). exists b2. split; [exact H2 | eapply refines_trans; eassumption].
+Qed.
+
+Lemma norm_fold_new s bd : forall acc k b,
+  In (k, b) bd -> exists b', lookup (fold_left (norm_step s) bd acc) (head_of s k) = Some b' /\ refines b' b.
+Proof.
+  induction bd as [|nb bd IH]; intros acc k b Hin; [destruct Hin|]. cbn [fold_left]. destruct Hin as [E|Hin].
+  - subst nb. destruct (norm_step_new s acc k b) as (b1 & H1 & R1).
+    destruct (norm_fold_acc s bd _ _ b1 H1) as (b2 & H2 & R2). exists b2. split; [exact H2 | eapply refines_trans; eassumption].
+  - apply IH, Hin.
+Qed.
+
+(* every declared bound is enforced through the entry of the listed name of its cell *)
+Lemma norm_bounds_refines s bd k b :
+  In (k, b) bd -> exists b', lookup (norm_bounds s bd) (head_of s k) = Some b' /\ refines b' b.
+Proof. apply norm_fold_new. Qed.
+
+Lemma head_fold s k l : forall h,
+  (forall t, In t l -> cellof s t <> cellof s k) -> fold_left (fun h t => if Nat.eqb (cellof s t) (cellof s k) then t else h) l h = h.
+Proof.
+  induction l as [|a l IH]; intros h H; [reflexivity|]. cbn [fold_left].
+  assert (E : Nat.eqb (cellof s a) (cellof s k) = false) by (apply Nat.eqb_neq, H; left; reflexivity).
+  rewrite E. apply IH. intros t Ht. apply H. right. exact Ht.
+Qed.
+
+Lemma head_of_listed s k n :
+  NoDup (map (cellof s) (train s)) -> In n (train s) -> cellof s k = cellof s n -> head_of s k = n.
+Proof.
+  intros Hnd Hin Hc. unfold head_of.
+  assert (G : forall h, fold_left (fun h t => if Nat.eqb (cellof s t) (cellof s k) then t else h) (train s) h = n).
+  { revert Hnd Hin. induction (train s) as [|a l IH]; intros Hnd Hin h; [destruct Hin|].
+    cbn [fold_left map] in *. inversion Hnd as [|? ? Hnot Hnd']; subst. destruct Hin as [E|Hin].
+    - subst a. rewrite Hc, Nat.eqb_refl. apply head_fold. intros t Ht E. apply Hnot. rewrite <- E. apply in_map, Ht.
+    - apply IH; assumption. }
+  apply G.
+Qed.
+
+(* a bound declared on ANY member k of a tie holds for the shared value after a fit in the transforming branches ... *)
+Lemma tied_bounded_inside_transforming (newton : bool) opt bd s i n k b :
+  let m := if newton then M_newton else M_bfgs in
+  NoDup (map (cellof s) (train s)) -> nth_error (train s) i = Some n -> cellof s k = cellof s n -> In (k, b) bd ->
+  (forall b', lookup (norm_bounds s bd) n = Some b' -> bound_ok b') ->
+  length (fst (opt (set_bound s (norm_bounds s bd)))) = length (train s) -> polar_untied s n ->
+  in_bound b (read (fst (fit_cfg m opt bd s)) k).
+Proof.
+  intros m Hnd Hn Hc Hin Hok Hlen Hu.
+  assert (Hh : head_of s k = n) by (apply head_of_listed; [exact Hnd | eapply nth_error_In; exact Hn | exact Hc]).
+  destruct (norm_bounds_refines s bd k b Hin) as (b' & Hl & R). rewrite Hh in Hl.
+  unfold fit_cfg. rewrite (tied_equal m opt (norm_bounds s bd) s k n Hc). apply R.
+  apply (bounded_inside_transforming newton opt (norm_bounds s bd) s i n b'); auto.
+Qed.
+
+(* ... and in the box-constrained branches under the contract that the optimiser answers inside the box it was given *)
+Lemma tied_bounded_inside_box (minuit : bool) opt bd s i n k b :
+  let m := if minuit then M_minuit else M_lbfgsb in
+  NoDup (map (cellof s) (train s)) -> nth_error (train s) i = Some n -> cellof s k = cellof s n -> In (k, b) bd ->
+  length (fst (opt s)) = length (train s) -> polar_untied s n ->
+  (forall b', lookup (norm_bounds s bd) n = Some b' -> in_bound b' (nth i (fst (opt s)) 0)) ->
+  in_bound b (read (fst (fit_cfg m opt bd s)) k).
+Proof.
+  intros m Hnd Hn Hc Hin Hlen Hu Hbox.
+  assert (Hh : head_of s k = n) by (apply head_of_listed; [exact Hnd | eapply nth_error_In; exact Hn | exact Hc]).
+  destruct (norm_bounds_refines s bd k b Hin) as (b' & Hl & R). rewrite Hh in Hl.
+  unfold fit_cfg. rewrite (tied_equal m opt (norm_bounds s bd) s k n Hc). apply R.
+  apply (bounded_inside_box minuit opt (norm_bounds s bd) s i n b'); auto.
+Qed.
+
+(* the tree before the repair used the dictionary as given: a bound on a name that is not the listed one of its tie is never
+   looked up; with the optimiser answering x the shared value is x, whatever the bound *)
+Definition ex_t_s : st := mkSt (fun n => 0%nat) (fun _ => 0) [0%nat; 1%nat] [0%nat] [] [].
+Lemma tied_bound_old_ignored x f :
+  read (fst (fit M_bfgs (fun _ => ([x], f)) [(1%nat, (Some 0, Some 1))] ex_t_s)) 1%nat = x /\
+  0 <= read (fst (fit_cfg M_bfgs (fun _ => ([x], f)) [(1%nat, (Some 0, Some 1))] ex_t_s)) 1%nat <= 1.
+Proof.
+  split; [unfold read; cbn; reflexivity|].
+  unfold read; cbn. pose proof (SIN_bound x). lra.
 Qed.
